@@ -130,8 +130,9 @@ let finish_case (out : string list) =
         | None -> if not agrees then Printf.printf "DISAGREE %s || %s\n" obs model_info)
    | "c12a" ->
        let start = match !cur_extra with _ :: s :: _ -> int_of_z (z_of_hex s) | _ -> failwith "c12a extra" in
-       let op = match !cur_extra with [ _; _; o ] -> o | _ -> "?" in
-       note_case ("c12a-" ^ op) key;
+       let op = match !cur_extra with _ :: _ :: o :: _ -> o | _ -> "?" in
+       let prev = match !cur_extra with _ :: _ :: _ :: pv :: _ -> pv | _ -> "prev=?" in
+       note_case ("c12a-" ^ op ^ (if op = "illegal-first-byte" then "-" ^ prev else "")) key;
        let clause =
          match impl with
          | IPanic -> Some "parser panicked"
@@ -143,11 +144,15 @@ let finish_case (out : string list) =
              else if int_of_z p.p_offset < start then
                Some (Printf.sprintf "error position %s before the corrupted definition (offset %x)" (string_of_pos p) start)
              else if idefs <> xdefs then
-               Some ("definitions so far are not exactly the preceding ones (impl/expected): " ^ diff_defs idefs xdefs)
+               Some ("locality-defs-so-far: definitions so far are not exactly the preceding ones (impl/expected): " ^ diff_defs idefs xdefs)
              else None
        in
        (match clause with
-        | Some c -> Printf.printf "PFAIL %s || clause=%s ; %s\n" obs c model_info
+        | Some c ->
+            (* the name of the failed clause is part of the observation (known-finding matcher of checks/parser.py) *)
+            let failed = if String.length c >= 20 && String.sub c 0 20 = "locality-defs-so-far" then "locality-defs-so-far" else "other" in
+            Printf.printf "PFAIL %s failed=%s expected-defs=%d observed-defs=%d || clause=%s ; %s\n" obs failed
+              (List.length xdefs) (List.length idefs) c model_info
         | None -> if not agrees then Printf.printf "DISAGREE %s || %s\n" obs model_info)
    | "c12b" ->
        let kind = match !cur_extra with [ k ] -> k | _ -> "?" in
